@@ -83,10 +83,14 @@ func (m *TrieStore) Seek(rng storage.SeekRange, f func(k, v []byte) bool) {
 		if len(path) <= len(fromP) && bytes.HasPrefix(fromP, path) {
 			fromP = fromP[len(path):]
 		} else if len(path) > len(fromP) && bytes.HasPrefix(path, fromP) {
+			if rng.Backwards {
+				// Every key of the subtree extends the start key, i.e. is greater.
+				return
+			}
 			fromP = []byte{}
 		} else {
 			cmp := bytes.Compare(path, fromP)
-			if cmp < 0 == rng.Backwards {
+			if cmp < 0 != rng.Backwards {
 				// No matching items.
 				return
 			}
@@ -97,6 +101,10 @@ func (m *TrieStore) Seek(rng storage.SeekRange, f func(k, v []byte) bool) {
 	b := NewBillet(m.trie.root.Hash(), m.trie.mode, DummySTTempStoragePrefix, m.trie.Store)
 	process := func(pathToNode []byte, node Node, _ []byte) bool {
 		if leaf, ok := node.(*LeafNode); ok {
+			if rng.Backwards && len(rng.Start) > 0 && bytes.Compare(pathToNode, rng.Start) > 0 {
+				// Keys extending the start key are traversed with it, but are greater.
+				return false
+			}
 			// (*Billet).traverse includes `from` path into the result if so. It's OK for Seek, so shouldn't be filtered out.
 			kv := storage.KeyValue{
 				Key:   slices.Concat(rng.Prefix, pathToNode), // Do not cut prefix.
